@@ -301,6 +301,11 @@ class TracedBus(EventBus):
         return n
 
 
+class TracedBus2(TracedBus):
+    """A further subclass: programs commonly mix plain buses with subclasses of EventBus (class-level state that is created
+    lazily through `cls` must still be shared by all of them)."""
+
+
 class Run:
     """One execution of one scenario."""
 
@@ -450,7 +455,7 @@ class Run:
                     wal = os.path.join(self.workdir, 'a', 'b', f'{d["name"]}.jsonl')
                 else:
                     wal = os.path.join(self.workdir, f'{d["name"]}.jsonl')
-            b = TracedBus(name=d['name'], parallel_handlers=bool(d.get('par')), max_history_size=d.get('hist'), wal_path=wal)
+            b = (TracedBus2 if d.get('sub') else TracedBus)(name=d['name'], parallel_handlers=bool(d.get('par')), max_history_size=d.get('hist'), wal_path=wal)
             b._run = self
             b._idx = i
             self.buses[i] = b
@@ -635,6 +640,24 @@ class Run:
                     # anything inline, so on an incomplete child (F1) they would block the handler for ever while it holds the lock)
                     self.rec('child_result', by=by, ev=self.tag_of(c))
                     await c.event_result()  # re-raises the child's first error (the original object) inside this handler
+            elif k == 'redisp_actor':
+                # a handler sends an event object that top-level code created (and has already dispatched once) to a further bus
+                other = self.actor_events.get(op[1], [])
+                if op[2] < len(other) and other[op[2]].event_path and not self._in_own_ancestry(other[op[2]], event):
+                    # (from now on the handler's event waits for it, like for any event dispatched inside the handler)
+                    self._dispatch(other[op[2]], op[3], by, parent_tag)
+            elif k == 'redisp_parent':
+                # a handler hands the event that caused its own event (its parent) to another bus: the parent becomes a child of this
+                # handler's result - a cycle in the child graph
+                me = self.tag_of(event)
+                ptag = next((p_ for p_, cs in self.children.items() if me in cs), None)
+                if ptag is not None:
+                    self._dispatch(self.events[ptag], op[1], by, None)
+            elif k == 'relay_children':
+                # a second handler of the same event passes the children dispatched so far (by its sibling handlers) on to another bus
+                for c in list(event.event_children):
+                    if c in self.events.values():
+                        self._dispatch(c, op[1], by, parent_tag)
             elif k == 'step':
                 # user code driving a bus by hand from inside a handler: `await asyncio.wait_for(bus.step(), T)` (re-enters the lock)
                 b = self.getbus(op[1])
@@ -784,7 +807,16 @@ class Run:
                 except BaseException as ex:
                     got = type(ex).__name__
                 self.rec('event_bus', by=by, got=got)
-            elif k in ('sleep', 'spawn', 'await_shared', 'await_actor', 'stop_bus', 'gather', 'step'):
+            elif k == 'relay_children':
+                for c in list(event.event_children):
+                    if c in self.events.values():
+                        self._dispatch(c, op[1], by, parent_tag)
+            elif k == 'redisp_parent':
+                me = self.tag_of(event)
+                ptag = next((p_ for p_, cs in self.children.items() if me in cs), None)
+                if ptag is not None:
+                    self._dispatch(self.events[ptag], op[1], by, None)
+            elif k in ('sleep', 'spawn', 'await_shared', 'await_actor', 'stop_bus', 'gather', 'step', 'redisp_actor'):
                 continue  # not expressible in a sync handler
             else:
                 raise AssertionError(f'unknown op {op}')
